@@ -546,7 +546,11 @@ def _abs_term(depth):
         st.tuples(sub, sub).map(lambda p: ["cmp", "g", list(p)]),
         sub.map(lambda x: ["cmp", "q a", [x]]),
         sub.map(lambda x: ["neg", x]),
-        st.tuples(st.sampled_from(["and", "or", "clause"]), sub, sub).map(lambda p: [p[0], p[1], p[2]]),
+        st.tuples(st.sampled_from(["and", "or", "clause"]), sub, sub).map(
+            # a clause head must be callable: a variable, number, string or anonymous head is not a clause the
+            # public API documents (the parser rejects it and Clause.__repr__ assumes head.functor)
+            lambda p: [p[0], ["cmp", "f", [p[1]]] if p[0] == "clause" and p[1][0] in ("var", "ivar", "anon", "int", "float", "str")
+                       else p[1], p[2]]),
         st.tuples(st.lists(sub, min_size=0, max_size=3), st.one_of(st.none(), st.just(["var", "T"]), sub)).map(
             lambda p: ["list", p[0], p[1] if p[0] else None]),
     )
